@@ -15,11 +15,12 @@ Definition bare_net_pat : path_pat := pat 2 [(0, PIn net_types)].
    - on functions "test" occurs in an attribute exactly when it marks a test function, on modules "cfg(test)"
      occurs exactly when the attribute implies cfg(test)  (comments among the attributes are harmless since def5e3f);
    - a method call is on the line where its receiver chain starts; no clone in a `for` iterator expression;
-   - no call path of the form NetType::method *)
+   - no call path of the form NetType::method; no documented blocking call inside a method-form wrapper
+     (handle.spawn_blocking(|| ..)) *)
 Definition plain_ok (w : linter) (g : gctx) (k : kind) (cs : list node) : bool :=
   (negb (g_macro g) || negb (risky w k)) &&
   match k with
-  | KFn pre _ _ => forallb (attr_plain "test" attr_is_test_fn) pre
+  | KFn pre _ _ => forallb (attr_plain "test" attr_marks_test_fn) pre
   | KMod pre => forallb (attr_plain "cfg(test)" attr_is_cfg_test) pre
   | KMethod sl sc ml name =>
     match w with
@@ -27,7 +28,8 @@ Definition plain_ok (w : linter) (g : gctx) (k : kind) (cs : list node) : bool :
     | LClone => (sl =? ml) && (negb (g_forhdr g) || negb (String.eqb name "clone"))
     | LBlocking => true
     end
-  | KCall _ _ path => match w with LBlocking => negb (pat_matches path bare_net_pat) | _ => true end
+  | KCall _ _ path =>
+    match w with LBlocking => negb (pat_matches path bare_net_pat) && (negb (g_mwrap g) || negb (risky LBlocking k)) | _ => true end
   | _ => true
   end.
 
@@ -89,33 +91,54 @@ Proof.
 Qed.
 
 (* ------------------------------------------------------------------ plain files pass the faithful model's guard *)
-Lemma plain_ok_gok w g k cs : plain_ok w g k cs = true -> gok w rust_actual g k cs = true.
+Lemma plain_ok_gok w g k cs : w <> LBlocking -> plain_ok w g k cs = true -> gok w rust_actual g k cs = true.
 Proof.
-  unfold plain_ok, gok. intros H. apply andb_true_iff in H as [H1 H2]. rewrite H1. cbn [andb].
+  intros NW. unfold plain_ok, gok. intros H. apply andb_true_iff in H as [H1 H2]. rewrite H1. cbn [andb].
   destruct (run_types_ok rust_actual) as (A1 & C1 & A2 & C2).
   destruct k as [pre|pre a nm| |b| |x| |nm| |sl sc ml name|sl sc path|p| |lk pat| | |nm]; try reflexivity.
   - exact (attrs_plain_ok _ cfg_attr_needle attr_is_cfg_test pre A2 C2 H2).
-  - exact (attrs_plain_ok _ test_attr_needle attr_is_test_fn pre A1 C1 H2).
-  - destruct w; cbn [rust_actual q_chain_start_line negb orb]; exact H2.
-  - destruct w; try reflexivity. apply negb_true_iff in H2.
-    change (blocking_classes_of rust_actual) with blocking_classes. rewrite (classify_plain path H2). apply ostr_eqb_refl.
+  - exact (attrs_plain_ok _ test_attr_needle attr_marks_test_fn pre A1 C1 H2).
+  - destruct w; cbn [rust_actual q_chain_start_line negb orb]; try exact H2; now contradiction NW.
+  - destruct w; try reflexivity; now contradiction NW.
 Qed.
 
-Lemma file_plain_guard w file : file_plain w file = true -> file_guard w rust_actual file = true.
+Lemma plain_ok_gok_b g k cs : plain_ok LBlocking g k cs = true -> gok LBlocking (msg_off rust_actual) g k cs = true.
 Proof.
-  unfold file_plain, file_guard, rguard. intros H. apply forallb_forall. intros n Hn.
-  apply (guard_mono (gpush rust_actual) (plain_ok w) (gok w rust_actual) (plain_ok_gok w)).
+  unfold plain_ok, gok. intros H. apply andb_true_iff in H as [H1 H2]. rewrite H1. cbn [andb].
+  destruct (run_types_ok (msg_off rust_actual)) as (A1 & C1 & A2 & C2).
+  destruct k as [pre|pre a nm| |b| |x| |nm| |sl sc ml name|sl sc path|p| |lk pat| | |nm]; try reflexivity.
+  - exact (attrs_plain_ok _ cfg_attr_needle attr_is_cfg_test pre A2 C2 H2).
+  - exact (attrs_plain_ok _ test_attr_needle attr_marks_test_fn pre A1 C1 H2).
+  - apply andb_true_iff in H2 as [H2 H3]. apply negb_true_iff in H2.
+    change (blocking_classes_of (msg_off rust_actual)) with blocking_classes. rewrite (classify_plain path H2), ostr_eqb_refl, H3. reflexivity.
+Qed.
+
+Lemma file_plain_guard w file : w <> LBlocking -> file_plain w file = true -> file_guard w rust_actual file = true.
+Proof.
+  intros NW. unfold file_plain, file_guard, rguard. intros H. apply forallb_forall. intros n Hn.
+  apply (guard_mono (gpush rust_actual) (plain_ok w) (gok w rust_actual) (fun g k cs => plain_ok_gok w g k cs NW)).
   exact (proj1 (forallb_forall _ _) H n Hn).
 Qed.
 
-Theorem unwrap_actual_plain c file : file_plain LUnwrap file = true ->
-  unwrap_report rust_actual c file = spec_unwrap_report c file.
-Proof. intros H. apply unwrap_guarded. exact (file_plain_guard LUnwrap file H). Qed.
+Lemma file_plain_guard_b file : file_plain LBlocking file = true -> file_guard LBlocking (msg_off rust_actual) file = true.
+Proof.
+  unfold file_plain, file_guard, rguard. intros H. apply forallb_forall. intros n Hn.
+  change (gpush (msg_off rust_actual)) with (gpush rust_actual).
+  apply (guard_mono (gpush rust_actual) (plain_ok LBlocking) (gok LBlocking (msg_off rust_actual)) plain_ok_gok_b).
+  exact (proj1 (forallb_forall _ _) H n Hn).
+Qed.
 
-Theorem clone_actual_plain c file : clone_switches_on (c_clone c) = true -> file_plain LClone file = true ->
-  clone_report rust_actual c file = spec_clone_report c file.
-Proof. intros HS H. apply clone_guarded; [right; exact HS|]. exact (file_plain_guard LClone file H). Qed.
+Theorem unwrap_actual_plain ls c file : file_plain LUnwrap file = true ->
+  unwrap_report rust_actual ls c file = spec_unwrap_report ls c file.
+Proof. intros H. apply unwrap_guarded. exact (file_plain_guard LUnwrap file ltac:(discriminate) H). Qed.
 
-Theorem blocking_actual_plain c file : file_plain LBlocking file = true ->
-  blocking_report rust_actual c file = spec_blocking_report c file.
-Proof. intros H. apply blocking_guarded. exact (file_plain_guard LBlocking file H). Qed.
+Theorem clone_actual_plain ls c file : clone_switches_on (c_clone c) = true -> file_plain LClone file = true ->
+  clone_report rust_actual ls c file = spec_clone_report ls c file.
+Proof. intros HS H. apply clone_guarded; [right; exact HS|]. exact (file_plain_guard LClone file ltac:(discriminate) H). Qed.
+
+(* blocking-async: rule ids and positions; the message text is the listed finding q_blocking_msg_line on every report *)
+Theorem blocking_actual_plain ls c file : file_plain LBlocking file = true ->
+  map erase_msg (blocking_report rust_actual ls c file) = map erase_msg (spec_blocking_report ls c file).
+Proof.
+  intros H. rewrite blocking_msg_erased. f_equal. apply blocking_guarded. exact (file_plain_guard_b file H).
+Qed.
